@@ -9,6 +9,7 @@ import (
 	"strings"
 
 	"github.com/dave/dst"
+	"github.com/dave/dst/verifhook"
 )
 
 func (f *fileDecorator) addDecorationFragment(n ast.Node, name string, pos token.Pos) {
@@ -408,9 +409,15 @@ func (f *fileDecorator) attachToDecoration(frags []fragment, decorations map[ast
 	for _, fr := range frags {
 		switch fr := fr.(type) {
 		case *commentFragment:
+			if verifhook.Enabled {
+				verifhook.Attach(fr.Text, fmt.Sprintf("%T", dec.Node), dec.Name)
+			}
 			appendDecoration(decorations, dec.Node, dec.Name, fr.Text)
 			fr.Attached = dec
 		case *newlineFragment:
+			if verifhook.Enabled {
+				verifhook.Attach("\n", fmt.Sprintf("%T", dec.Node), dec.Name)
+			}
 			appendNewLine(decorations, dec.Node, dec.Name, fr.Empty)
 			fr.Attached = dec
 		}
